@@ -2,6 +2,8 @@ package main
 
 import (
 	"flag"
+	"runtime/pprof"
+	"time"
 	"fmt"
 	"os"
 	"sort"
@@ -12,6 +14,16 @@ func main() {
 	if len(os.Args) < 2 {
 		fmt.Fprintln(os.Stderr, "usage: tgvc <check|verify|ssa> ...")
 		os.Exit(2)
+	}
+	if pf := os.Getenv("TGVC_PROF"); pf != "" {
+		f, _ := os.Create(pf)
+		pprof.StartCPUProfile(f)
+		go func() {
+			time.Sleep(60 * time.Second)
+			pprof.StopCPUProfile()
+			f.Close()
+			os.Exit(3)
+		}()
 	}
 	switch os.Args[1] {
 	case "ssa":
@@ -59,6 +71,8 @@ func cmdVerify(args []string) {
 	timeout := fs.Int("timeout", 10, "solver timeout (s)")
 	work := fs.String("work", "/verif/work/dbg", "work dir")
 	verbose := fs.Bool("v", false, "verbose")
+	kinds := fs.String("kinds", "", "only obligations of these kinds (comma separated)")
+	idMatch := fs.String("match", "", "only obligations whose id contains this")
 	fs.Parse(args)
 	e := mustLoad("/repo", "/verif/spec")
 	var obls []*Obligation
@@ -93,7 +107,15 @@ func cmdVerify(args []string) {
 				fmt.Println("NOTE:", funcKey(f), n)
 			}
 		}
-		obls = append(obls, fv.obls...)
+		for _, o := range fv.obls {
+			if *kinds != "" && !strings.Contains(","+*kinds+",", ","+o.Kind+",") {
+				continue
+			}
+			if *idMatch != "" && !strings.Contains(o.ID, *idMatch) {
+				continue
+			}
+			obls = append(obls, o)
+		}
 	}
 	solveAll(obls, *work, *timeout, false, 16)
 	bad := 0
